@@ -99,10 +99,13 @@ CONFIGS = {
     "default": [],
     "no-default-features": ["--no-default-features"],
     "arbitrary": ["--features", "arbitrary"],
+    "no-debug-assertions": [],
 }
+CONFIG_RUSTFLAGS = {"no-debug-assertions": "-C debug-assertions=off -C overflow-checks=off"}
 
 
 def build_facts(repo=None, config="default", rustflags=""):
+    rustflags = rustflags or CONFIG_RUSTFLAGS.get(config, "")
     """Run the driver on `repo`'s current working tree and load the result.
     The facts file lives in a temp dir that is removed before returning."""
     repo = repo or REPO
